@@ -206,6 +206,8 @@ type matchCfg struct {
 	// forcePos: oracle computes rank keys from accurate match offsets (positions
 	// always requested) instead of replicating core.go's withPos derivation
 	forcePos bool
+	// nth: field ranges the search is restricted to (the terminal's current --nth / change-nth value)
+	nth []Range
 }
 
 // install sets the process-wide matching state the way option post-processing does.
@@ -278,7 +280,7 @@ func (m matchCfg) pattern(cache *ChunkCache, pc map[string]*Pattern, rev revisio
 		fa = algo.FuzzyMatchV1
 	}
 	cm := []Case{CaseSmart, CaseIgnore, CaseRespect}[((m.Case%3)+3)%3]
-	return BuildPattern(cache, pc, m.Fuzzy, fa, m.Extended, cm, m.Normal, forward, withPos, cacheable, nil, Delimiter{}, rev, []rune(q), nil)
+	return BuildPattern(cache, pc, m.Fuzzy, fa, m.Extended, cm, m.Normal, forward, withPos, cacheable, m.nth, Delimiter{}, rev, []rune(q), nil)
 }
 
 // ---------------------------------------------------------------------------
